@@ -177,8 +177,8 @@ func H06() {
 	check(s1 == h06Sub(u3), "a use inside a list is identical")
 	u3.Dir["k"] = k
 	sr := h06Sub(ur)
-	check(hReplaceNS(s1, "urn:m", "urn:r") == sr, "a use is identical to the grouping's body written inline where the grouping is defined")
-	check(hReplaceNS(h06Sub(ua), "urn:a", "urn:r") == sr, "a use from another module is identical, in that module's namespace")
+	check(hReplaceNS(hReplaceNS(s1, "urn:m", "urn:r"), " im=m", " im=r") == sr, "a use is identical to the grouping's body written inline where the grouping is defined")
+	check(hReplaceNS(hReplaceNS(h06Sub(ua), "urn:a", "urn:r"), " im=a", " im=r") == sr, "a use from another module is identical, in that module's namespace")
 	// scoping: type t is the defining module's int8 and the identityref sees the defining module's identity
 	check(u1.Dir["lf"].Type.Kind == Yint8 && ua.Dir["lf"].Type.Kind == Yint8, "type names inside the grouping resolve in the defining scope")
 	// statements kept verbatim on each copy: the grouping's own, then those of its use
